@@ -46,23 +46,23 @@ func (r *RecTCPConn) add(e TCPEvent) {
 	r.mu.Unlock()
 }
 func (r *RecTCPConn) AddAuthenticated(k string) {
-	r.add(TCPEvent{Kind: "authenticated", Key: k})
 	if r.Inner != nil {
 		r.Inner.AddAuthenticated(k)
 	}
+	r.add(TCPEvent{Kind: "authenticated", Key: k})
 }
 func (r *RecTCPConn) AddClosed(status string, d metrics.ProxyMetrics, dur time.Duration) {
-	r.add(TCPEvent{Kind: "closed", Status: status, Data: d, Dur: dur})
 	if r.Inner != nil {
 		r.Inner.AddClosed(status, d, dur)
 	}
+	r.add(TCPEvent{Kind: "closed", Status: status, Data: d, Dur: dur})
 	r.once.Do(func() { close(r.done) })
 }
 func (r *RecTCPConn) AddProbe(status, drain string, n int64) {
-	r.add(TCPEvent{Kind: "probe", Status: status, Drain: drain, Bytes: n})
 	if r.Inner != nil {
 		r.Inner.AddProbe(status, drain, n)
 	}
+	r.add(TCPEvent{Kind: "probe", Status: status, Drain: drain, Bytes: n})
 }
 
 // Events returns a copy of the event list.
@@ -110,6 +110,9 @@ type RecUDPAssoc struct {
 	Added  time.Time
 	events []UDPEvent
 	Inner  service.UDPConnMetrics
+	// RemoveDelay: the removal report takes this long to return (a slow metrics sink); the removal is recorded
+	// when the report starts
+	RemoveDelay time.Duration
 }
 
 var _ service.UDPConnMetrics = (*RecUDPAssoc)(nil)
@@ -121,21 +124,24 @@ func (r *RecUDPAssoc) add(e UDPEvent) {
 	r.mu.Unlock()
 }
 func (r *RecUDPAssoc) AddPacketFromClient(status string, cp, pt int64) {
-	r.add(UDPEvent{Kind: "fromClient", Status: status, A: cp, B: pt})
 	if r.Inner != nil {
 		r.Inner.AddPacketFromClient(status, cp, pt)
 	}
+	r.add(UDPEvent{Kind: "fromClient", Status: status, A: cp, B: pt})
 }
 func (r *RecUDPAssoc) AddPacketFromTarget(status string, tp, pc int64) {
-	r.add(UDPEvent{Kind: "fromTarget", Status: status, A: tp, B: pc})
 	if r.Inner != nil {
 		r.Inner.AddPacketFromTarget(status, tp, pc)
 	}
+	r.add(UDPEvent{Kind: "fromTarget", Status: status, A: tp, B: pc})
 }
 func (r *RecUDPAssoc) RemoveNatEntry() {
-	r.add(UDPEvent{Kind: "removed"})
-	if r.Inner != nil {
+	if r.Inner != nil { // first the real collector, then the record: whoever sees the record may read the collector
 		r.Inner.RemoveNatEntry()
+	}
+	r.add(UDPEvent{Kind: "removed"})
+	if r.RemoveDelay > 0 {
+		time.Sleep(r.RemoveDelay)
 	}
 }
 func (r *RecUDPAssoc) Events() []UDPEvent {
@@ -176,6 +182,8 @@ type RecService struct {
 	udp      []*RecUDPAssoc
 	searches []CipherSearch
 	Inner    service.ServiceMetrics
+	// RemoveDelay is handed to every association record (see RecUDPAssoc.RemoveDelay)
+	RemoveDelay time.Duration
 }
 
 var _ service.ServiceMetrics = (*RecService)(nil)
@@ -197,7 +205,7 @@ func (s *RecService) AddOpenTCPConnection(conn net.Conn) service.TCPConnMetrics 
 	return r
 }
 func (s *RecService) AddUDPNatEntry(clientAddr net.Addr, key string) service.UDPConnMetrics {
-	r := &RecUDPAssoc{Client: clientAddr.String(), Key: key, Added: time.Now()}
+	r := &RecUDPAssoc{Client: clientAddr.String(), Key: key, Added: time.Now(), RemoveDelay: s.RemoveDelay}
 	if s.Inner != nil {
 		r.Inner = s.Inner.AddUDPNatEntry(clientAddr, key)
 	}
@@ -244,9 +252,13 @@ func (s *RecService) TCPByRemote(remote string) *RecTCPConn {
 type RecSSMetrics struct {
 	sync.Mutex
 	Found []bool
+	Delay time.Duration // a slow metrics sink: every report takes this long
 }
 
 func (m *RecSSMetrics) AddCipherSearch(found bool, d time.Duration) {
+	if m.Delay > 0 {
+		time.Sleep(m.Delay)
+	}
 	m.Lock()
 	m.Found = append(m.Found, found)
 	m.Unlock()
